@@ -65,6 +65,23 @@ func ruleRecycleClean(c *Check, a *Analysis, rule string) {
 						reset = true
 					}
 				}
+				// or every field is cleared one by one
+				if !reset {
+					if pt, isPtr := r.Res.Type().Underlying().(*types.Pointer); isPtr {
+						if stt, isSt := pt.Elem().Underlying().(*types.Struct); isSt {
+							cleared := 0
+							for i := 0; i < stt.NumFields(); i++ {
+								for _, st := range storesIn(fn) {
+									if fa, isFA := st.Addr.(*ssa.FieldAddr); isFA && fa.Field == i && p.varKey(fa.X) == key && p.dominatesInstr(st, r.Instr) && isZeroValue(st.Val) {
+										cleared++
+										break
+									}
+								}
+							}
+							reset = cleared == stt.NumFields()
+						}
+					}
+				}
 				for _, rs := range callsIn(fn, "(*Context).Reset") {
 					if p.varKey(rs.Common().Args[0]) == key && p.dominatesInstr(rs.(ssa.Instruction), r.Instr) {
 						reset = true
@@ -716,4 +733,20 @@ func ruleDeadStaysDead(c *Check, a *Analysis, rule string) {
 			c.Ob(rule, sc.key(fn, "not-alive target re-marked with ErrDial only"), p.InstrPos(up), ok, ifs(!ok, "a target found not alive is updated with "+describe(args[len(args)-1])+" instead of ErrDial: when that value is not ErrDial the target is flagged alive without being listed, and is never probed or used again"))
 		}
 	}
+}
+
+// isZeroValue: v is the zero value of its type (nil, 0, "", false).
+func isZeroValue(v ssa.Value) bool {
+	k, ok := v.(*ssa.Const)
+	if !ok {
+		return false
+	}
+	if k.Value == nil {
+		return true
+	}
+	switch k.Value.ExactString() {
+	case "0", `""`, "false":
+		return true
+	}
+	return false
 }
